@@ -144,6 +144,25 @@ def run_unit(run, unit, expanded, twins):
     out['rlimit_used'] = tm.get('smt', {}).get('rlimit-run', 0)
     mapping = {'map': g.map, 'blocks': g.blocks}
     errs = verus_run.map_errors(res, mapping)
+    # confirmation pass: an obligation counts as failing only if it fails again under another solver seed and three times the resource
+    # limit.  A false obligation fails under every seed; a failure that depends on the seed (quantifier instantiation order, resource
+    # limit) is solver incompleteness, which must not be reported as a violation.  Vacuity twins are left as they are.
+    suspects = set(e['block'] for e in errs if e['cls'] in ('definite', 'resource') and e.get('block') and g.blocks.get(e['block'], {}).get('kind') != 'vacuity-twin')
+    if suspects and not os.environ.get('VERIF_NO_CONFIRM'):
+        res2 = verus_run.run_verus(gen_path, rlimit=3 * (ucfg.get('rlimit') or 30), threads=ucfg.get('threads', 8), timeout=ucfg.get('timeout', 1500),
+                                   extra=['--smt-option', 'smt.random_seed=7'])
+        out['wall_s'] += res2['wall_s']
+        if not res2['timeout'] and res2['json']:
+            again = set(e['block'] for e in verus_run.map_errors(res2, mapping) if e.get('block'))
+            dropped = sorted(suspects - again)
+            if dropped:
+                run.log('unit %s: %d failure(s) did not repeat under another solver seed and are not reported: %s' % (unit, len(dropped), ', '.join(dropped)))
+                out.setdefault('unstable', []).extend(dropped)
+                errs = [e for e in errs if e.get('block') not in dropped]
+                js2 = res2['json'] or {}
+                vr2 = js2.get('verification-results', {})
+                out['verified'] = max(out['verified'], vr2.get('verified', 0))
+                out['errors_n'] = min(out['errors_n'], vr2.get('errors', out['errors_n']))
     out['errors'] = errs
     if not js or (vr.get('encountered-vir-error') or (vr.get('encountered-error') and vr.get('verified', 0) == 0
                                                          and vr.get('errors', 0) == 0)):
